@@ -140,7 +140,16 @@ def r08c(ctx):
             if f is None:
                 continue
             n += 1
-            zips = [c for c in walk_no_nested(f.node) if isinstance(c, ast.Call) and (call_name(c) or "").split(".")[-1] in ("zip", "zip_longest")]
+            # the method and the methods of its class it calls: a pairing moved into `_paired_edits(node)` is the same pairing
+            helpers_ = []
+            for c_ in walk_no_nested(f.node):
+                if isinstance(c_, ast.Call) and self_attr(c_.func):
+                    h_ = m.method(q, self_attr(c_.func))
+                    if h_ is not None and h_.node is not f.node and h_.node.name not in meths and h_ not in helpers_ \
+                            and h_.cls and m.is_subclass(h_.cls, m.need_class("TreeNode")) and h_.node.name.startswith("_"):
+                        helpers_.append(h_)
+            zips = [c for g_ in [f] + helpers_ for c in walk_no_nested(g_.node)
+                    if isinstance(c, ast.Call) and (call_name(c) or "").split(".")[-1] in ("zip", "zip_longest")]
             idx = [s for s in walk_no_nested(f.node) if isinstance(s, ast.Subscript) and isinstance(s.slice, ast.Name)
                    and any(isinstance(a, ast.For) and isinstance(a.iter, ast.Call) and call_name(a.iter) in ("range", "enumerate")
                            for a in [x for x in ast.walk(f.node) if isinstance(x, ast.For)])]
